@@ -894,7 +894,7 @@ class SklearnEKFAdapter(BaseEstimator):
         )
 
         for _key, mapping in sorted(list(self.sensor_noises.items())):
-            arglist = sorted(list(mapping.keys()))
+            arglist = sorted(list(mapping.keys()), key=str)
 
             flattened.extend(self._flatten_dict_diagonal(mapping, arglist))
 
@@ -922,7 +922,7 @@ class SklearnEKFAdapter(BaseEstimator):
             sensor_size = len(mapping)
             sensor, flattened = flattened[:sensor_size], flattened[sensor_size:]
 
-            arglist = sorted(list(mapping.keys()))
+            arglist = sorted(list(mapping.keys()), key=str)
 
             params["sensor_noises"][key] = nearest_positive_definite(
                 dict(self._inverse_flatten_dict_diagonal(sensor, arglist))
@@ -1040,7 +1040,7 @@ class SklearnEKFAdapter(BaseEstimator):
             )
         )
         for noise_mapping in self.sensor_noises.values():
-            arglist = sorted(list(noise_mapping.keys()))
+            arglist = sorted(list(noise_mapping.keys()), key=str)
             matrix_score += np.sum(
                 np.square(list(self._flatten_dict_diagonal(noise_mapping, arglist)))
             )
